@@ -52,6 +52,21 @@ CHECKS["C05"] = ("exploration",
    "For every authorization the hooks that ran, their variables and the moment of the challenge POST are compared with an independent prediction; names together with their wildcard, mixed challenge types, IPs, subsets of offered types and non-pending authorizations are generated on purpose and counted.",
    "The CA offers dns-01 only for wildcard authorizations (as real CAs do).",
    "DESIGN.md 4 C05")
+CHECKS["C06"] = ("exploration",
+   "property-based testing (proptest): generated (certificate, key, configuration) triples evaluated by the daemon's own scheduling decision in the in-crate probe, bracketed by an interval oracle around the wall clock; metamorphic check of the jitter distribution; black-box timing of real renewals of short-lived certificates",
+   "Certificates from far past to +7900 years (including the 2^31-second edge and +-1 s around now+renew_delay), SAN subsets/supersets/permutations, delays from 0 to thousands of years, missing files; the returned waiting time must lie in the interval the property prescribes.",
+   "One-second slack for clock reads; black-box bounds have 1.2 s / 2.5 s slack (notAfter has one-second resolution).",
+   "DESIGN.md 4 C06")
+CHECKS["C09"] = ("exploration",
+   "property-based testing (proptest) of arrival patterns against the daemon's limiter in the in-crate probe with a sound bracket oracle (return[i+n]-call[i] >= p) and a bounded-liveness oracle; black-box arrival-time invariant over all requests at the mock CA under retry storms",
+   "Limit sets and arrival patterns (bursts, steady, on/off; several certificates contending, badNonce storms, long polls) are generated; the window invariant is checked on the probe's call/return instants (sound) and on the CA's arrival times (250 ms slack).",
+   "Schedules are sampled, not owned; a failing timing case is re-run twice before it counts.",
+   "DESIGN.md 4 C09")
+CHECKS["C14"] = ("exploration",
+   "property-based testing (proptest) of configuration trees: differential between the daemon's loaded state (MainEventLoop::new dumped by the in-crate probe) and an independent resolver written over the generator's structure",
+   "Include graphs with globs, repeats, cycles and unread files, all 15 global options split over files, three-level settings and injected dangling references / duplicate ids; effective settings and accept/reject decision must equal the resolver's.",
+   "Table/array-valued global options are defined in at most one file per tree (their merge semantics are not documented).",
+   "DESIGN.md 4 C14")
 PENDING = {}
 
 props = [json.loads(l) for l in open("/verif/properties.jsonl")]
